@@ -139,7 +139,7 @@ Fixpoint resolve (steps links : nat) (f : fs) (cur : path) (todo : list comp) (f
     end
   end.
 
-Definition STEPS : nat := 2000.
+Definition STEPS : nat := (50 * 40)%nat.
 (** resolve an absolute lexical path *)
 Definition res_nofollow (f : fs) (p : path) : result path := resolve STEPS MAXLINKS f [] p false.
 Definition res_follow (f : fs) (p : path) : result path := resolve STEPS MAXLINKS f [] p true.
